@@ -32,8 +32,21 @@ def all_configs():
   return out
 
 
+def style_configs():
+  """handler styles beyond plain functions: un-spied states carrying a foreign functools.wraps decorator (a user's own timing /
+  logging wrapper).  (Bound-method handlers - a new object per access - are NOT generated: miros compares handlers by identity in
+  trans_ and its own Factory stores plain functions on the instance; see DESIGN.md section 10.)"""
+  out = []
+  for host in ('plain', 'instr', 'queued', 'ao'):
+    extra = {'named': True} if host == 'ao' else {}
+    out.append(dict({'host': host, 'spied': False, 'deco': 'wraps'}, **extra))
+    if host in ('queued', 'ao'):
+      out.append(dict({'host': host, 'spied': False, 'deco': 'wraps', 'instrumented': False}, **extra))
+  return out
+
+
 def cfg_name(c):
-  return '%s%s%s%s%s%s' % (c['host'], '+spied' if c.get('spied') else '',
+  return '%s%s%s%s%s%s%s' % (c['host'], '+wraps' if c.get('deco') == 'wraps' else '', '+spied' if c.get('spied') else '',
                            '' if c.get('instrumented', True) else '+uninstr',
                            '+unnamed' if c.get('named') is False else '',
                            '+livespy' if c.get('live_spy') else '', '+livetrace' if c.get('live_trace') else '')
@@ -63,7 +76,7 @@ def run_config(spec, start, script, cfg, queries=None, clock=None, keep_chart=Fa
   """queries: optional {step_index: [('is_in', i) | ('child_state', i)]}, executed
   after that step (index -1 = after start)."""
   res = Result()
-  run = cg.Run(spec, spied=cfg.get('spied', False), **(run_kwargs or {}))
+  run = cg.Run(spec, spied=cfg.get('spied', False), foreign_deco=cfg.get('deco') == 'wraps', **(run_kwargs or {}))
   host = cfg['host']
   sem = threading.Semaphore(0)
   gate = threading.Lock()     # the post call (enqueue, then POST_* spy marker) returns before the object's step begins, see qrun.run
